@@ -10,6 +10,7 @@ mod c03;
 mod c05;
 mod c06;
 mod c07;
+mod c08;
 mod roll;
 mod fsx;
 mod c09;
@@ -42,6 +43,7 @@ fn props() -> Vec<Prop> {
         Prop { id: "C05", run: c05::run, replay: c05::replay, meta: c05::meta, workers: (4, 16), also_release: false },
         Prop { id: "C06", run: c06::run, replay: c06::replay, meta: c06::meta, workers: (4, 16), also_release: false },
         Prop { id: "C07", run: c07::run, replay: c07::replay, meta: c07::meta, workers: (4, 16), also_release: false },
+        Prop { id: "C08", run: c08::run, replay: c08::replay, meta: c08::meta, workers: (8, 16), also_release: false },
         Prop { id: "C09", run: c09::run, replay: c09::replay, meta: c09::meta, workers: (1, 8), also_release: true },
         Prop { id: "C11", run: c11::run, replay: c11::replay, meta: c11::meta, workers: (4, 16), also_release: true },
         Prop { id: "C12", run: c12::run, replay: c12::replay, meta: c12::meta, workers: (1, 16), also_release: false },
